@@ -26,6 +26,23 @@ fn run(r: &mut Run) -> Result<(), MachineryError> {
         cx.set_input(&text);
         check_text(&text, &gaps, cx);
     })?;
+    // longer words and a zero-width ASCII control character (lines of 8 bytes and more)
+    let tokens = [L, LLL, SP, TAB, W, NL, CSI];
+    let n2 = t.pick(4, 5);
+    let space = Space { name: "C20/tokens-and-tab".into(), menu: menu(&tokens), max_len: n2, desc: format!("texts of length <= {} over multi-letter tokens, TAB, SGR x the same configurations", n2) };
+    r.space(space, |seq, cx| {
+        let text = build(seq, &tokens);
+        cx.set_input(&text);
+        check_text(&text, &gaps, cx);
+    })?;
+    // total widths far above the text: cells padded with many blanks (64, 128, 256 are chunk sizes)
+    let small = [L, SP, W, NL];
+    let space = Space { name: "C20/large-widths".into(), menu: menu(&small), max_len: 3, desc: "texts of length <= 3 x columns 1..=3 x total widths {63,64,65,127,128,129,130,200,257,300,1000} x gap triples x break_words x algorithms".into() };
+    r.space(space, |seq, cx| {
+        let text = build(seq, &small);
+        cx.set_input(&text);
+        check_text_widths(&text, &gaps, &[63, 64, 65, 127, 128, 129, 130, 200, 257, 300, 1000], 3, cx);
+    })?;
     // the escape grammar's byte ranges (text alphabets only carry sequences ending in 'm')
     r.range("C20/escape-grammar-scan", "for every byte b in 0x21..=0x7F the texts \"ESC[1bX12 345\" and \"ESC]8bX BEL 12 345\" through the same layout oracle (b = space excluded: the separators are specified to split at spaces, also inside a sequence)", 95 * 2, move |i, cx| {
         let b = (0x21 + (i % 95)) as u8 as char;
@@ -37,11 +54,16 @@ fn run(r: &mut Run) -> Result<(), MachineryError> {
 }
 
 fn check_text(text: &str, gaps: &[(&'static str, &'static str, &'static str)], cx: &mut Cx) {
+    let totals: Vec<usize> = (0..=12).collect();
+    check_text_widths(text, gaps, &totals, 4, cx)
+}
+
+fn check_text_widths(text: &str, gaps: &[(&'static str, &'static str, &'static str)], totals: &[usize], max_cols: usize, cx: &mut Cx) {
     {
         let gaps = gaps.iter().copied();
 
-        for cols in 1..=4usize {
-            for total in 0..=12usize {
+        for cols in 1..=max_cols {
+            for &total in totals {
                 for (l, m, rg) in gaps.clone() {
                     for bw in [true, false] {
                         for alg in algs_default() {
